@@ -99,6 +99,42 @@ def handle (j : Json) : R Json := do
                      ("tail", coversJ l it (3 * (total - tl)) (3 * total)),
                      ("slices", jArr [sliceJ l 0 (3 * ld), sliceJ l (3 * ld) (3 * (total - tl)),
                                       sliceJ l (3 * (total - tl)) (3 * total)])])])
+  | "prepeptide_rt" =>
+    -- to_biopython → Prepeptide.from_biopython(core) → to_biopython again
+    let ld ← intF j "leader"; let tl ← intF j "tail"
+    let repaired ← boolF j "repaired"
+    let implR ← optLoc j "impl_rebuilt"
+    let il ← optLoc j "impl_leader"; let ic ← optLoc j "impl_core"; let it ← optLoc j "impl_tail"
+    let total := l.len / 3
+    let guard := decide (0 ≤ ld) && decide (0 ≤ tl) && decide (ld + tl < total)
+    let expected := sliceL (bases l) 0 (3 * total).toNat
+    let sound : Bool := match prepeptideSections l ld tl with
+      | .ok x => sectionsSound (sectionList x)
+      | _ => true
+    let oneStrand (r : Loc) : Bool := r.parts.all fun q => q.strand == l.strand
+    let basesOk (r : Option Loc) (a b : Int) : Json := match r with
+      | none => Json.null
+      | some r => toJson (bases r == sliceL (bases l) a.toNat b.toNat && oneStrand r)
+    let m := prepeptideRebuild repaired l ld tl
+    let m2 := prepeptideSecondPass repaired l ld tl
+    return jObj (common ++ [
+      ("model", resJson locToJson m),
+      ("model_bases", match m with | .ok r => jInts (bases r) | _ => Json.null),
+      ("model2", resJson (fun (x : Option Loc × Loc × Option Loc) =>
+          jObj [("leader", optLocJson x.1), ("core", locToJson x.2.1), ("tail", optLocJson x.2.2)]) m2),
+      ("sound", toJson sound),
+      ("unrepresentable", toJson (match prepeptideSections l ld tl with
+        | .ok x => (match rebuildLocation repaired (sectionList x) with
+                    | .ok r => containsOverlappingExons r | _ => false)
+        | _ => false)),
+      ("spec", jObj [("guard", toJson guard),
+                     ("rebuilt", basesOk implR 0 (3 * total)),
+                     ("expected", jInts expected),
+                     ("leader", basesOk il 0 (3 * ld)),
+                     ("core", basesOk ic (3 * ld) (3 * (total - tl))),
+                     ("tail", basesOk it (3 * (total - tl)) (3 * total)),
+                     ("slices", jArr [sliceJ l 0 (3 * ld), sliceJ l (3 * ld) (3 * (total - tl)),
+                                      sliceJ l (3 * (total - tl)) (3 * total)])])])
   | k => throw s!"C09: unknown kind {k}"
 
 end ASV.Drv.C09
